@@ -9,7 +9,6 @@ import (
 	"io"
 	"os"
 	"path/filepath"
-	"runtime/debug"
 
 	"github.com/hydraide/hydraide/app/core/hydra/swamp/beacon"
 	"github.com/hydraide/hydraide/app/core/hydra/swamp/chronicler"
@@ -253,9 +252,6 @@ func (r *Run) peek() (int, []int) {
 		return err
 	})
 	if err != nil {
-		// a garbage block header makes the reader allocate up to 4 GiB; give it back to the OS so the next
-		// huge allocation gets fresh zero pages instead of clearing a reused span (harness speed only)
-		debug.FreeOSMemory()
 		if len(err.Error()) > 6 && err.Error()[:6] == "panic:" {
 			return 2, m
 		}
